@@ -192,6 +192,36 @@ def literals(mod, minlen=2, maxlen=40, cap=400):
     return out[:cap]
 
 
+def module_alphabet(mod, cap=30):
+    """Dictionary characters of a module: the letters and symbols its own string constants mention (regular expression
+    classes, check alphabets, type letters).  Behaviour branches on exactly these, so they are substituted
+    systematically; digits, blanks and regular expression punctuation are left to the character classes."""
+    import ast, inspect
+    try:
+        tree = ast.parse(inspect.getsource(mod))
+    except Exception:
+        return []
+    doc = set()
+    for node in ast.walk(tree):
+        if isinstance(node, (ast.Module, ast.FunctionDef, ast.ClassDef)):
+            d = ast.get_docstring(node, clean=False)
+            if d:
+                doc.add(d)
+    first, rest = [], []
+    for node in ast.walk(tree):
+        if isinstance(node, ast.Constant) and isinstance(node.value, str) and node.value not in doc and len(node.value) <= 80:
+            regexish = any(c in node.value for c in '[^$')
+            for c in node.value:
+                if c.isdigit() or c.isspace() or c in '^$[]{}()?\\.-,:;_\'"<>!' or c.islower():
+                    continue
+                (first if regexish else rest).append(c)
+    out = []
+    for c in first + rest:
+        if c not in out:
+            out.append(c)
+    return out[:cap]
+
+
 def substitute_tokens(base, lits):
     """base with one of its word tokens (split on spaces; also alphabetic runs) replaced by a literal."""
     import re
